@@ -4,6 +4,8 @@ import (
 	"fmt"
 	"go/ast"
 	"go/types"
+	"golang.org/x/tools/go/types/typeutil"
+	"strings"
 	"verifcheck/internal/core"
 
 	"verifcheck/internal/flow"
@@ -158,6 +160,59 @@ func ruleStaleGuardedRead(ctx *Ctx, rule string, scope func(*flow.Unit) bool) {
 						d.obj.Name(), d.field.typ, d.field.field, d.field.lock), trace...)
 				} else {
 					r.Ok(rule, key, pos, "no release of "+d.field.lock+" between the read of the field and this branch")
+				}
+			}
+			// the same for a snapshot handed to a function of the module as an
+			// argument while the mutex is held again: the callee decides on it
+			isArgUse := func(n ast.Node) bool {
+				call, ok := n.(*ast.CallExpr)
+				if !ok {
+					return false
+				}
+				fn, _ := typeutil.Callee(info, call).(*types.Func)
+				if fn == nil || fn.Pkg() == nil || !strings.HasPrefix(fn.Pkg().Path(), core.ModPath) {
+					return false
+				}
+				for _, arg := range call.Args {
+					if flow.Contains(arg, usesObj) {
+						return true
+					}
+				}
+				return false
+			}
+			for _, ap := range u.Find(isArgUse) {
+				use := ap.B.Nodes[ap.I]
+				k++
+				key := fmt.Sprintf("%s | %s (snapshot of %s.%s) passed on #%d", u.Name, d.obj.Name(), d.field.typ, d.field.field, k)
+				pos := ctx.Prog.Rel(use.Pos())
+				min, _, known := a.Held(u, use, c)
+				if !known || min < 1 {
+					r.Ok(rule, key, pos, "passed on without "+d.field.lock+" held")
+					continue
+				}
+				stale := false
+				var trace []string
+				for _, up := range u.Find(isUnlock) {
+					if _, isDefer := up.B.Nodes[up.I].(*ast.DeferStmt); isDefer {
+						continue
+					}
+					thisUnlock := func(n ast.Node) bool { return n == up.B.Nodes[up.I] }
+					r1 := a.Eng.Reaches(u, defPts[0].After(), thisUnlock, isRedef)
+					if !r1.Found {
+						continue
+					}
+					thisUse := func(n ast.Node) bool { return n == use }
+					if r2 := a.Eng.Reaches(u, up.After(), thisUse, isRedef); r2.Found {
+						stale = true
+						trace = append(append([]string{"definition -> unlock:"}, r1.Trace...), append([]string{"unlock -> use:"}, r2.Trace...)...)
+						break
+					}
+				}
+				if stale {
+					r.Violation(rule, key, pos, fmt.Sprintf("%s was computed from %s.%s under %s, the mutex was released in between, and the value is handed to a function that decides on it with the mutex held again: the field may have changed (e.g. a Finish handled meanwhile); re-read it after re-locking",
+						d.obj.Name(), d.field.typ, d.field.field, d.field.lock), trace...)
+				} else {
+					r.Ok(rule, key, pos, "no release of "+d.field.lock+" between the read of the field and this use")
 				}
 			}
 		}
